@@ -594,3 +594,5 @@ def run(ctx, led):
     run_rule(led, "F17", "an equality decision is read back as written (no-learning resolver under `--conflict-resolver no-learning`; shared with C07-J5)", _C07d.j5, ctx)
     from . import kernel as _kernel
     _kernel.run_bundle(led, ctx, "F")
+    from . import kernel as _kernel4
+    _kernel4.run_lifecycle(led, ctx, "F")
